@@ -807,10 +807,19 @@ func TypeConforms(ctx map[ast.Variable]ast.BaseTerm, left ast.BaseTerm, right as
 	}
 	if leftConst, ok := left.(ast.Constant); ok {
 		if rightConst, ok := right.(ast.Constant); ok {
-			if strings.HasPrefix(leftConst.Symbol, rightConst.Symbol) {
-				return true
+			if isBuiltinTypeName(leftConst) {
+				// Distinct built-in types are disjoint (equality and /any were handled above).
+				return false
 			}
-			return leftConst.Type == ast.NameType && rightConst.Equals(ast.NameBound)
+			// left is a name prefix type: its members are names.
+			if rightConst.Equals(ast.NameBound) {
+				return leftConst.Type == ast.NameType
+			}
+			if isBuiltinTypeName(rightConst) {
+				return false
+			}
+			// /a/b conforms to /a, whereas /ab does not.
+			return strings.HasPrefix(leftConst.Symbol, rightConst.Symbol+"/")
 		}
 	}
 	// fn:Singleton(c) <: T if c is a member of T.
@@ -949,6 +958,19 @@ func TypeConforms(ctx map[ast.Variable]ast.BaseTerm, left ast.BaseTerm, right as
 		}
 	}
 
+	return false
+}
+
+// isBuiltinTypeName returns true for the type expressions that are names of
+// built-in types, as opposed to name prefix types like /foo.
+func isBuiltinTypeName(c ast.Constant) bool {
+	if IsBaseTypeExpression(c) {
+		return true
+	}
+	switch c {
+	case ast.NameBound, ast.TimeBound, ast.DurationBound:
+		return true
+	}
 	return false
 }
 
